@@ -119,6 +119,20 @@ Theorem C03_config_finished_reads_in_bounds : forall i, 0 <= i < CHANNEL_MAX ->
 Proof. exact C03_config_finished_reads_in_bounds_thm. Qed.
 Print Assumptions C03_config_finished_reads_in_bounds.
 
+(* ACTIONTRIGGER channel config: the active triggers of the inputs of the named channel are the requested actions masked by what
+   each input offers (nothing for an input without the capability); inputs of other channels keep theirs *)
+Theorem C03_action_triggers_within_capability : forall cap req,
+  Z.land (at_active cap req) cap = at_active cap req /\ (cap = 0 -> at_active cap req = 0).
+Proof. exact C03_action_triggers_within_capability_thm. Qed.
+Print Assumptions C03_action_triggers_within_capability.
+
+Theorem C03_action_triggers_frame : forall b act id p scratch i,
+  len act = INPUT_MAX -> 0 <= i < INPUT_MAX ->
+  i_channel (input_at b i) <> nthz p CC_CHANNEL ->
+  nth (Z.to_nat i) (active_after b act id p scratch) 0 = nth (Z.to_nat i) act 0.
+Proof. exact C03_action_triggers_frame_thm. Qed.
+Print Assumptions C03_action_triggers_frame.
+
 (* the code before docs/fixes/C03_rs_config_guards.diff violates both clauses *)
 Theorem C03_old_code_refuted :
   (wf_board board_4rs /\ bytes_ok (rs_config_msg 3 FNC_RS 2) /\
